@@ -1,0 +1,11 @@
+//! Verification hooks (feature `verif-hooks` only): thin wrappers that make crate-internal
+//! machinery reachable for the external property-checking harness.  Add-only; nothing here
+//! is used by the crate itself.
+
+/// Socket layer: mapped addresses, relay receive path, transports sender.
+pub mod socket {
+    pub use crate::socket::{
+        transports::{Addr, FourTuple},
+        verif::*,
+    };
+}
